@@ -24,6 +24,8 @@ def install(seed=b'verif'):
     e._otp_key_iv['retail'] = (hashlib.sha256(seed + b'ok').digest()[:16], hashlib.sha256(seed + b'oi').digest()[:16])
     e._otp_key_iv['dev'] = (hashlib.sha256(seed + b'dk').digest()[:16], hashlib.sha256(seed + b'di').digest()[:16])
     e.b9_blobs_loaded = True
+    import logging
+    logging.disable(logging.CRITICAL)      # pyctr logs expected conditions (missing partitions, failed inference) to stderr
     return e
 
 
